@@ -42,7 +42,7 @@ RULE = ('per (listing, truncation to k result times): breadth-first search to cl
         'listing over the alphabet {first, last, next, prev, index=i for every i in [-k, k-1], time=t and step=s '
         'for every exact value, every midpoint of consecutive values and its two floating-point neighbours, one '
         'value below the first and one above the last, history(single item), history(one item in each of the first '
-        'two tables), history(one item per table), history(a column that does not exist - may fail loudly), look(rows: read '
+        'two tables), history(one item per table), history(a column that does not exist - may fail loudly), history(single item, start_datetime given), look(rows: read '
         'first/middle/last row of every table by name, by row number and by negative row number, and two columns, through '
         'the table accessors), look(reductions property)}; a state is the whole reader object (a digest of every attribute '
         'including which arrays are shared between attributes - hence index, time, step, all table data) plus the file '
@@ -92,6 +92,7 @@ LEVEL_NOTE = ('Trusted: ref/navmodel.py (result-set scan and nearest-index arith
 
 MAX_DEPTH = 40
 SHARD_TRANSITIONS = 2500
+START_DATETIME = '1999-12-31T23:59:58.750001'
 STATE_CAP_PER_RESULT_SET = 20      # the unchanged tree has 6-8 states per result set
 SPEC = {'element': 'e', 'element1': 'e1', 'element2': 'e2', 'connection': 'c', 'primary': 'p', 'generation': 'g'}
 
@@ -240,6 +241,17 @@ class Ctx(object):
             self.look_refs = looks
         return self.refs
 
+    def datetimes_representable(self):
+        """False when the listing's times carry START_DATETIME beyond what a datetime can hold (steady-state runs
+        reach 1e15 s): history(start_datetime=...) can then only fail loudly and is not an action of the alphabet."""
+        import datetime
+        try:
+            for s_ in self.scan.sets:
+                datetime.datetime.fromisoformat(START_DATETIME) + datetime.timedelta(seconds=s_.time)
+            return True
+        except OverflowError:
+            return False
+
     def alphabet(self, tablenames):
         if self.mode == 'by':
             return self.alphabet_with_bystanders(tablenames)
@@ -247,7 +259,7 @@ class Ctx(object):
             # reduced cursor alphabet; histories only of the first table (always printed): what history() does with a
             # table that a result set does not print is C06's business, not a navigation question
             return [op for op in self.alphabet_with_bystanders(tablenames, second_objects=False)
-                    if not (op[0] == 'history' and op[1] != 'single')]
+                    if not (op[0] == 'history' and op[1] not in ('single', 'single-datetime'))]
         return self.full_alphabet(tablenames)
 
     def alphabet_with_bystanders(self, tablenames, second_objects=True):
@@ -261,6 +273,8 @@ class Ctx(object):
         ops.append(['history', 'single'])
         if len(tablenames) >= 2:
             ops.append(['history', 'all'])
+        if self.datetimes_representable():
+            ops.append(['history', 'single-datetime'])
         ops.append(['look', 'rows'])
         if second_objects:
             for label in sorted(self.prepare_bystanders()):
@@ -292,6 +306,8 @@ class Ctx(object):
             ops.append(['history', 'all'])
         # a history request for a column that does not exist may fail loudly - and must leave the reader as it was
         ops.append(['history', 'unknown-column'])
+        if self.datetimes_representable():
+            ops.append(['history', 'single-datetime'])      # the documented start_datetime option
         # looking is an action too: reading rows and columns through the table accessors, and reading the
         # 'reductions' property, must not change what the reader shows
         ops.append(['look', 'rows'])
@@ -327,6 +343,8 @@ def history_selection(lst, which):
     names = list(lst._tablenames)
     if which == 'unknown-column':
         return (SPEC[names[0]], 0, 'no such column'), names[:1]
+    if which == 'single-datetime':
+        which = 'single'
     if which == 'single':
         t = lst._table[names[0]]
         return (SPEC[names[0]], 0, t.column_name[0]), names[:1]
@@ -425,6 +443,9 @@ def apply_op_plain(st, op, judge=True):
                         raise
                     except Exception:
                         pass                      # failing loudly on a column that does not exist is fine
+                elif op[1] == 'single-datetime':
+                    import datetime
+                    lst.history(sel, start_datetime=datetime.datetime.fromisoformat(START_DATETIME))
                 else:
                     lst.history(sel)
             elif name == 'look':
